@@ -9,7 +9,8 @@ using namespace V;
 static void run(Ctx& c) {
     Rng& r = c.rng;
     bool rel = r.chance(1, 2);
-    Shape sh = rel ? randomShape(r, 1, 4, 4, 30) : randomShape(r, 1, 5, 5, 600);
+    Shape sh = rel ? randomShapeW(r, 1, 4, 4, 30) : randomShapeW(r, 1, 5, 5, 600);
+    if (sh.sizes.size() > 1 && *std::max_element(sh.sizes.begin(), sh.sizes.end()) >= 10) c.count("wide_variable_shapes");
     std::vector<FSpec> kinds = allKinds(rel);
     FSpec fs1 = kinds[r.below(kinds.size())]; randomPolicy(r, fs1);
     FSpec fs2 = fs1; randomPolicy(r, fs2);                 // same kind and rule, other policies
